@@ -125,6 +125,7 @@ type SpecShape struct {
 	Subs []SpecSub
 	CTM  Aff
 	St   SpecStyle
+	Skew bool // a skew function is on the element or on one of its ancestors
 }
 
 type SpecDoc struct {
@@ -431,7 +432,17 @@ func (sd *SpecDoc) walk(n *Node, anc []*Node, st SpecStyle, ctm Aff) {
 		}
 	}
 	if len(kept) > 0 {
-		sd.Shapes = append(sd.Shapes, SpecShape{N: n, Subs: kept, CTM: ctm, St: st})
+		skewed := false
+		for _, e := range append(anc[:len(anc):len(anc)], n) {
+			if v, ok := attrOf(e, "transform"); ok {
+				for _, f := range v.Xf {
+					if strings.HasPrefix(strings.ToLower(f.Name), "skew") {
+						skewed = true
+					}
+				}
+			}
+		}
+		sd.Shapes = append(sd.Shapes, SpecShape{N: n, Subs: kept, CTM: ctm, St: st, Skew: skewed})
 	}
 	for _, k := range n.Kids {
 		sd.walk(k, append(anc[:len(anc):len(anc)], n), st, ctm)
@@ -618,6 +629,43 @@ func dashOn(d []float64, off, s float64) (on bool, margin float64) {
 	return true, 0
 }
 
+// coverDecision is the rule "if the pattern element in which the path starts reaches beyond the end of the
+// path, the path is all dash (solid) or all gap (none); otherwise keep the pattern", written from its
+// definition; the margin is the distance of the path length from the threshold.
+func coverDecision(d []float64, off, length float64) (string, float64) {
+	if len(d) == 0 {
+		return "solid", math.Inf(1)
+	}
+	if len(d)%2 == 1 {
+		d = append(append([]float64{}, d...), d...)
+	}
+	total := 0.0
+	for _, x := range d {
+		total += x
+	}
+	if !(total > 0) {
+		return "solid", math.Inf(1)
+	}
+	x := math.Mod(off, total)
+	if x < 0 {
+		x += total
+	}
+	for i, e := range d {
+		if x < e {
+			remaining := e - x
+			if length <= remaining {
+				if i%2 == 0 {
+					return "solid", remaining - length
+				}
+				return "none", remaining - length
+			}
+			return "keep", length - remaining
+		}
+		x -= e
+	}
+	return "keep", 0
+}
+
 // backtracks: two consecutive straight pieces of an outline in exactly opposite directions
 func backtracksPts(vs []P2) bool {
 	for i := 2; i < len(vs); i++ {
@@ -758,9 +806,18 @@ func oracle(c *hc.Ctx, d *Doc, svg string, p Parsed) {
 			dirDist(recSubs, specSubs, "rendered outline")
 		}
 		if worst > tol {
-			feat := firstFeature(d, "viewbox-min-ge-size", "skew", "viewbox-origin", "rx-ry")
-			if feat == ":rx-ry" && s.N.Tag != "rect" {
-				feat = ""
+			// the regression/known class is named after the cause that applies to THIS element
+			feat := firstFeature(d, "aspect", "xform-comma", "viewbox-min-ge-size")
+			_, hasRx := attrOf(s.N, "rx")
+			_, hasRy := attrOf(s.N, "ry")
+			switch {
+			case feat != "":
+			case s.Skew:
+				feat = ":skew"
+			case s.N.Tag == "rect" && (hasRx || hasRy):
+				feat = ":rx-ry"
+			default:
+				feat = firstFeature(d, "viewbox-origin")
 			}
 			if feat == "" && straightBacktrack(s.N) {
 				feat = ":collinear-backtrack"
@@ -846,6 +903,25 @@ func oracle(c *hc.Ctx, d *Doc, svg string, p Parsed) {
 				}
 				if precedence == "" && sw != 1 && cmp(scaled, s.St.DashOff*sw) == "" {
 					kind = "dash:scaled-by-stroke-width"
+				}
+				// Context.DrawPath's shortcut "the first dash/gap covers the whole path" is taken on the pattern in
+				// multiples of the stroke width against the length in user units (known finding of canvas.go,
+				// C14-checkdash-before-width-scaling): classified only when exactly that explains the outcome
+				if precedence == "" && sw != 1 && sw > 0 && len(l.Style.Dashes) == 0 {
+					inW := make([]float64, len(s.St.Dash))
+					for k, x := range s.St.Dash {
+						inW[k] = x / sw
+					}
+					plen := l.Path.Length()
+					took, m1 := coverDecision(inW, s.St.DashOff/sw, plen)
+					right, m2 := coverDecision(s.St.Dash, s.St.DashOff, plen)
+					rendered := "solid"
+					if !l.Style.HasStroke() {
+						rendered = "none"
+					}
+					if m1 > 1e-9 && m2 > 1e-9 && took == rendered && right == "keep" {
+						kind = "dash:checkdash-width-units"
+					}
 				}
 				fail(c, kind, fmt.Sprintf("<%s> #%d: stroke-dasharray %v (user units) with stroke-width %v: %s; rendered dashes %v x width", s.N.Tag, i, s.St.Dash, sw, bad, l.Style.Dashes),
 					rp("dashes", fmt.Sprint(l.Style.Dashes)))
